@@ -261,7 +261,7 @@ func cmdCheck(args []string) {
 		suffix := ""
 		body := fmt.Sprintf("property: %s\nfailed obligation: %s\nkind: %s\nfunction: %s\nposition: %s\nclause: %s\nsolver result: %s (%s, %.2fs)\nreason: %s\n", *prop, o.Name, o.Kind, o.Fn, o.Pos, o.Note, o.Result, o.Backend, o.Secs, why)
 		confirmed := false
-		if o.Result == "sat" && o.Model != "" {
+		if (o.Result == "sat" || o.Relaxed != "") && o.Model != "" {
 			body += "\n--- solver model ---\n" + o.Model + "\n"
 			rtxt, ok := tryReplay(p, o, *repo)
 			body += "\n--- replay on the real code ---\n" + rtxt + "\n"
